@@ -310,6 +310,8 @@ package builder
 //@ func UseUnderlyingTypeMethods.Build(gen, ctx, sourceID, source, target, errPath)
 //@   props C03
 //@   propagates
+// C07: pointer/underlying steps pass the path on unchanged
+//@   at@C07 call gen.Build#* assert same(arg4, errPath)
 //@   requires@C13 self != nil
 //@   requires@C13 GenInv(gen) && GenCtx(gen, ctx)
 //@   ensures@C13 GenInv(gen) && GenCtx(gen, ctx)
@@ -364,6 +366,8 @@ package builder
 //@ func BasicTargetPointerRule.Build(gen, ctx, sourceID, source, target, errPath)
 //@   props C03
 //@   propagates
+// C07: pointer/underlying steps pass the path on unchanged
+//@   at@C07 call gen.Build#* assert same(arg4, errPath)
 //@   requires@C13 self != nil
 //@   requires@C13 GenInv(gen) && GenCtx(gen, ctx)
 //@   ensures@C13 GenInv(gen) && GenCtx(gen, ctx)
@@ -382,6 +386,8 @@ package builder
 //@ func Pointer.Build(gen, ctx, sourceID, source, target, errPath)
 //@   props C03
 //@   propagates
+// C07: pointer/underlying steps pass the path on unchanged
+//@   at@C07 call gen.Assign#* assert same(arg5, errPath)
 //@   at@C11 call BuildByAssign#* assert !(ctx.UseConstructor && ctx.Conf.DefaultUpdate)
 //@   at@C11 call buildTargetVar#* assert ctx.UseConstructor && ctx.Conf.DefaultUpdate
 //@   requires@C13 self != nil
@@ -393,15 +399,19 @@ package builder
 //@ func Pointer.Assign(gen, ctx, assignTo, sourceID, source, target, errPath)
 //@   props C03
 //@   propagates
+// C07: pointer/underlying steps pass the path on unchanged
+//@   at@C07 call gen.Build#* assert same(arg4, errPath)
 //@   requires@C13 self != nil
 //@   requires@C13 GenInv(gen) && GenCtx(gen, ctx)
 //@   ensures@C13 GenInv(gen) && GenCtx(gen, ctx)
 //@   requires@C13 MatchesPointer(source, target)
 //@   requires@C13 gen != nil && CallOK(ctx, sourceID, source, target) && AssignOK(assignTo)
 
-//@ func SourcePointer.Build(gen, ctx, sourceID, source, target, errPath)
+//@ func SourcePointer.Build(gen, ctx, sourceID, source, target, path)
 //@   props C03
 //@   propagates
+// C07: pointer/underlying steps pass the path on unchanged
+//@   at@C07 call gen.Assign#* assert same(arg5, path)
 //@   at@C11 call BuildByAssign#* assert !(ctx.UseConstructor && ctx.Conf.DefaultUpdate)
 //@   at@C11 call buildTargetVar#* assert ctx.UseConstructor && ctx.Conf.DefaultUpdate
 //@   requires@C13 self != nil
@@ -410,18 +420,23 @@ package builder
 //@   requires@C13 MatchesSourcePointer(ctx, source, target)
 //@   requires@C13 gen != nil && CallOK(ctx, sourceID, source, target)
 //@   ensures err == nil ==> result1 != nil && result1.Code != nil
-//@ func SourcePointer.Assign(gen, ctx, assignTo, sourceID, source, target, errPath)
+//@ func SourcePointer.Assign(gen, ctx, assignTo, sourceID, source, target, path)
 //@   props C03
 //@   propagates
+// C07: pointer/underlying steps pass the path on unchanged
+//@   at@C07 call gen.Build#* assert same(arg4, path)
 //@   requires@C13 self != nil
 //@   requires@C13 GenInv(gen) && GenCtx(gen, ctx)
 //@   ensures@C13 GenInv(gen) && GenCtx(gen, ctx)
 //@   requires@C13 MatchesSourcePointer(ctx, source, target)
 //@   requires@C13 gen != nil && CallOK(ctx, sourceID, source, target) && AssignOK(assignTo)
 
-//@ func TargetPointer.Build(gen, ctx, sourceID, source, target, errPath)
+//@ func TargetPointer.Build(gen, ctx, sourceID, source, target, path)
 //@   props C03
 //@   propagates
+// C07: pointer/underlying steps pass the path on unchanged
+//@   at@C07 call gen.Build#* assert same(arg4, path)
+//@   at@C07 call gen.Assign#* assert same(arg5, path)
 //@   at@C11 call gen.Build#* assert !ctx.UseConstructor
 //@   at@C11 call buildTargetVar#* assert ctx.UseConstructor
 //@   requires@C13 self != nil
@@ -469,6 +484,13 @@ package builder
 //@ func Struct.Assign(gen, ctx, assignTo, sourceID, source, target, errPath)
 //@   props C03
 //@   propagates
+// C07: every nested conversion of a field gets the path extended by exactly that TARGET field name
+//@   at@C07 call gen.Assign#1 assert len(arg5) == len(errPath) + 1 && (forall j int :: 0 <= j && j < len(errPath) ==> arg5[j] == errPath[j])
+//@           && dynIs[errElmField](arg5[len(errPath)]) && string(unboxed[errElmField](arg5[len(errPath)])) == targetField.Name()
+//@   at@C07 call gen.CallMethod#1 assert len(arg5) == len(errPath) + 1 && (forall j int :: 0 <= j && j < len(errPath) ==> arg5[j] == errPath[j])
+//@           && dynIs[errElmField](arg5[len(errPath)]) && string(unboxed[errElmField](arg5[len(errPath)])) == targetField.Name()
+//@   at@C07 call mapField#* assert len(arg7) == len(errPath) + 1 && (forall j int :: 0 <= j && j < len(errPath) ==> arg7[j] == errPath[j])
+//@           && dynIs[errElmField](arg7[len(errPath)]) && string(unboxed[errElmField](arg7[len(errPath)])) == targetField.Name()
 //@   at@C10 call shouldCheckAgainstZero#1 assert arg1 == nextSource && arg2 == targetFieldType && arg3 == assignTo.Update && !arg4
 //@   at@C10 call shouldCheckAgainstZero#2 assert arg1 == functionCallSourceType && arg2 == targetFieldType && arg3 == assignTo.Update && arg4
 //@   requires@C13 self != nil
@@ -486,9 +508,12 @@ package builder
 //@   requires@C13 MatchesList(source, target)
 //@   requires@C13 gen != nil && CallOK(ctx, sourceID, source, target)
 //@   ensures err == nil ==> result1 != nil && result1.Code != nil
-//@ func List.Assign(gen, ctx, assignTo, sourceID, source, target, errPath)
+//@ func List.Assign(gen, ctx, assignTo, sourceID, source, target, path)
 //@   props C03
 //@   propagates
+// C07: element conversions get the path extended by the index variable of the emitted loop
+//@   at@C07 call gen.Assign#1 assert len(arg5) == len(path) + 1 && (forall j int :: 0 <= j && j < len(path) ==> arg5[j] == path[j])
+//@           && dynIs[errElmIndex](arg5[len(path)]) && unboxed[errElmIndex](arg5[len(path)]).stmt == jen.Id(index)
 //@   requires@C13 self != nil
 //@   requires@C13 GenInv(gen) && GenCtx(gen, ctx)
 //@   ensures@C13 GenInv(gen) && GenCtx(gen, ctx)
@@ -507,6 +532,11 @@ package builder
 //@ func Map.Assign(gen, ctx, assignTo, sourceID, source, target, errPath)
 //@   props C03
 //@   propagates
+// C07: key and value conversions get the path extended by the range key variable of the emitted loop
+//@   at@C07 call gen.Build#1 assert len(arg4) == len(old(errPath)) + 1 && (forall j int :: 0 <= j && j < len(old(errPath)) ==> arg4[j] == old(errPath)[j])
+//@           && dynIs[errElmKey](arg4[len(old(errPath))]) && unboxed[errElmKey](arg4[len(old(errPath))]).stmt == jen.Id(key)
+//@   at@C07 call gen.Assign#1 assert len(arg5) == len(old(errPath)) + 1 && (forall j int :: 0 <= j && j < len(old(errPath)) ==> arg5[j] == old(errPath)[j])
+//@           && dynIs[errElmKey](arg5[len(old(errPath))]) && unboxed[errElmKey](arg5[len(old(errPath))]).stmt == jen.Id(key)
 //@   requires@C13 self != nil
 //@   requires@C13 GenInv(gen) && GenCtx(gen, ctx)
 //@   ensures@C13 GenInv(gen) && GenCtx(gen, ctx)
